@@ -249,6 +249,18 @@ def run_shard_inproc(prop_id: str, tier: str, seed: int, shard: Tuple[int, int],
         mod.run(ctx)
     except Exception:
         ctx.inconclusive_because("harness error: " + traceback.format_exc()[-1500:])
+    # secondary monitor (all virtual-loop workloads): nothing may reach the loop's exception handler
+    try:
+        from vf import vloop
+        evs = [e for e in vloop.LOOP_EVENTS if "vf-" not in e]
+        ctx.count("loop_exception_handler_events", len(evs))
+        if evs and getattr(mod, "LOOP_EVENTS_ARE_VIOLATIONS", True):
+            kinds = sorted({e.split(":")[0][:80] for e in evs})
+            ctx.violation("unhandled_task_exception", f"{len(evs)} event(s) reached the event loop's exception handler "
+                          f"(never-retrieved task exceptions / pending tasks destroyed): {kinds[:4]}; first: {evs[0]}",
+                          {"loop_events": evs[:5]})
+    except Exception:
+        pass
     return ctx.dump()
 
 
